@@ -131,9 +131,11 @@ def register(reg):
     class InitSocks5(Contract):
         key = INIT
         props = ("C11", "C16", "C15", "C10")
-        params = {"stream": "ref:" + NS, "host": "val", "port": "int", "auth": "val"}
+        params = {"stream": "ref:" + NS, "host": "val", "port": "int", "auth": "val", "timeout": "val"}
         variants = [("no_auth", {"auth": "none"}), ("with_auth", {"auth": lambda eng, st: VTuple([eng.mk("bytes", "user"), eng.mk("bytes", "password")])})]
-        raises = NET_READ_RAISES + NET_WRITE_RAISES + [PE, "Cancelled"]
+        # socksio.ProtocolError (malformed reply) may leave this module-private helper: its only caller,
+        # Socks5Connection.handle_request, has to map it (its own `raises` does not contain it)
+        raises = NET_READ_RAISES + NET_WRITE_RAISES + [PE, "Cancelled", "socksio.ProtocolError"]
         raises_props = ("C15",)
         modifies = ("NS.written", "NS.pending")
         call_raises = NET_READ_RAISES + NET_WRITE_RAISES + [PE, "Cancelled", "socksio.ProtocolError"]
@@ -166,10 +168,10 @@ def register(reg):
             if ev.name == "net.write":
                 dts = c.events("socks.data_to_send")
                 out.append(("writes_exactly_the_encoded_message", ("C11",), ev.data["buffer"].t == dts[-1].data["value"].t if dts else False))
-                out.append(("negotiation_write_is_time_limited", ("C16",), ev.data["timeout"].t != none_val))
+                out.append(("negotiation_write_is_time_limited", ("C16",), ev.data["timeout"].t == e.to_val(st, c.args["timeout"]).t if "timeout" in c.args else False))
                 out.append(("negotiation_on_the_given_stream", ("C11",), ev.data["stream"].t == c.args["stream"].t))
             if ev.name == "net.read":
-                out.append(("negotiation_read_is_time_limited", ("C16",), ev.data["timeout"].t != none_val))
+                out.append(("negotiation_read_is_time_limited", ("C16",), ev.data["timeout"].t == e.to_val(st, c.args["timeout"]).t if "timeout" in c.args else False))
                 out.append(("negotiation_on_the_given_stream", ("C11",), ev.data["stream"].t == c.args["stream"].t))
             if ev.name == "socks.receive_data":
                 reads = c.events("net.read")
@@ -234,7 +236,12 @@ def register(reg):
         o = eng.old_arr(old, "SK._connection", IntS)
         n = eng.heap_arr(st, "SK._connection", IntS)
         if lid in st.held:
+            # both fields are only written by the holder of the connect lock (guarantee:
+            # socks_state_written_under_connect_lock), so they are stable across this flow's awaits
             eng.assume(st, z3.Select(n, s.t) == z3.Select(o, s.t))
+            of = eng.old_arr(old, "SK._connect_failed", z3.BoolSort())
+            nf = eng.heap_arr(st, "SK._connect_failed", z3.BoolSort())
+            eng.assume(st, z3.Select(nf, s.t) == z3.Select(of, s.t))
         else:
             eng.assume(st, z3.Implies(z3.Select(o, s.t) != 0, z3.Select(n, s.t) == z3.Select(o, s.t)))
 
@@ -280,6 +287,8 @@ def register(reg):
                     ("negotiation_names_exactly_the_remote_origin", ("C11", "C10"), z3.And(tv(k["host"]) == val_of_str(decode_ascii(F(c, ro, "Origin.host"))), e.coerce(st, k["port"], "int").t == F(c, ro, "Origin.port")) if ok else False),
                     ("negotiation_uses_configured_credentials", ("C11",), tv(k["auth"]) == F(c, s, "SK._proxy_auth") if ok else False),
                     ("negotiation_on_the_stream_just_connected", ("C11", "C06"), k["stream"].t == conns[0].data["result"].t if ok else False),
+                    # C16: "proxy negotiation steps use one of the configured values, never none" (an absent value means unlimited)
+                    ("negotiation_gets_one_of_the_configured_timeouts", ("C16",), z3.Or(*[tv(k["timeout"]) == timeout_of(ext, kind) for kind in ("connect", "read", "write")]) if "timeout" in k else False),
                 ]
             if ev.name == "net.start_tls":
                 d = ev.data
